@@ -18,6 +18,9 @@ func CallConcurrently(ctx context.Context, fns ...CallConcurrentlyFunc) error {
 	subCtx, subCtxCancel := context.WithCancel(ctx)
 	defer subCtxCancel()
 	if len(fns) == 1 {
+		if fns[0] == nil {
+			return nil
+		}
 		return fns[0](subCtx)
 	}
 
